@@ -275,6 +275,18 @@ SRCC_UNITS = [
          "valid_words", "int_to_words", "words_to_int", "valid_bits", "bits_to_int", "int_to_bits", "valid_bin", "int_to_bin",
          "bin_to_int", "int_to_packed", "packed_to_int")]),
 ]
+SRCC_TEXTFNS = {"addr": "str", "flags": "int", "int_val": "int"}
+SRCC_UNITS[2][4].extend([(None, "valid_str", SRCC_TEXTFNS), (None, "str_to_int", SRCC_TEXTFNS),
+                         (None, "int_to_str", dict(SRCC_TEXTFNS, dialect="unit")), (None, "expand_partial_address", SRCC_TEXTFNS)])
+SRCC_UNITS[3][4].extend([(None, "valid_str", SRCC_TEXTFNS), (None, "str_to_int", SRCC_TEXTFNS),
+                         (None, "int_to_str", dict(SRCC_TEXTFNS, dialect="optcls6")), (None, "int_to_arpa", SRCC_TEXTFNS)])
+# the socket functions that ipv4.py / ipv6.py bind at import time, from `socket` on the platform path and from netaddr.fbsocket on
+# the fallback path: module-level name -> (real name, {address family name or None: (prelude symbol, takes the back-end?)})
+SRCC_SOCKET = {"_inet_aton": ("inet_aton", {None: ("py_inet_aton", False)}),
+               "_inet_pton": ("inet_pton", {"AF_INET": ("py_inet_pton4", True), "AF_INET6": ("py_inet_pton6", True)}),
+               "_inet_ntop": ("inet_ntop", {"AF_INET6": ("py_inet_ntop6", True)})}
+SRCC_SOCKET_MODULES = ("socket", "_socket", "netaddr.fbsocket")
+COMPAT["_str_type"] = ("str", "basestring")
 UNITS += SRCC_UNITS
 FILES = FILES + tuple(u[1] for u in SRCC_UNITS)
 SRCC_OUT = tuple(u[1] for u in SRCC_UNITS)
@@ -284,11 +296,12 @@ SRCC_TABLE_TERM = {"BYTES_TO_BITS": "py_BYTES_TO_BITS"}      # Coq name of a tab
 SRCC_SHARED_CONSTS = {("ipv4_", "width"), ("ipv4_", "version"), ("ipv4_", "max_int"), ("ipv6_", "width"), ("ipv6_", "version"), ("ipv6_", "max_int")}
 # functions that return a tuple of ints where their callers (and the model) see a word sequence: the tuple is the list
 FUEL[(None, "int_to_bits", 2)] = ("word_size", 2)        # Codec.word_bytes_loop runs with Z.to_nat word_size + 1 and tests `word` first
-COQTY.update({"bytes": "(list Z)", "optstr": "(option string)"})
+COQTY.update({"bytes": "(list Z)", "optstr": "(option string)", "cls6": "(string * bool)", "optcls6": "(option (string * bool))"})
 RESERVED |= set("py_struct_pack py_struct_unpack py_seq_item py_list_item py_opt_default py_map_o py_clamp py_slice py_str_slice "
                 "py_str_or py_str_mul py_bytes_mul py_encode py_bytes_join py_str_in py_list_of_str py_split py_int_base_o py_fmt_x4 "
                 "py_insert0 py_except_all py_except_value join split fmt_d fmt_x chars length concat firstn skipn nth_error "
-                "py_BYTES_TO_BITS backend Platform Fallback".split())
+                "py_BYTES_TO_BITS py_backend be py_inet_aton py_inet_pton4 py_inet_pton6 py_inet_ntop6 py_format1 py_split_dc py_contains_dc "
+                "contains_char".split())
 
 
 class Untranslatable(Exception):
@@ -2295,7 +2308,7 @@ _is_value0 = is_value
 
 
 def is_value(t):
-    return t in ("bytes", "optstr") or _is_value0(t)
+    return t in ("bytes", "optstr", "cls6", "optcls6") or _is_value0(t)
 
 
 def srcc_struct_sizes(node):
@@ -2373,6 +2386,69 @@ def srcc_module_const(self, name, node):
 
 
 Translator.srcc_module_const = srcc_module_const
+
+
+def srcc_core_const(self, name, node):
+    """(type, term) of an int constant imported by `from netaddr.core import NAME`: bound in netaddr/core.py exactly once, at top
+    level, by `[X =] NAME = <int literal>`; emitted as the generated constant src_<prefix><NAME> with its value"""
+    if self.mod.imports.get(name) != "netaddr.core." + name or [n for n in ast.walk(self.mod.tree) if isinstance(n, ast.Name)
+                                                                 and n.id == name and isinstance(n.ctx, ast.Store)]:
+        return None
+    fn = "netaddr/core.py"
+    tree = ast.parse(open(os.path.join(REPO, fn), encoding="utf-8").read())
+    binds = [st for st in tree.body for x in ([st] if isinstance(st, (ast.FunctionDef, ast.ClassDef)) else ast.walk(st))
+             if (isinstance(x, (ast.FunctionDef, ast.ClassDef)) and x.name == name)
+             or (isinstance(x, ast.Name) and x.id == name and isinstance(x.ctx, ast.Store))
+             or (isinstance(x, ast.alias) and (x.asname or x.name) == name)]
+    if (len(binds) != 1 or not isinstance(binds[0], ast.Assign) or not all(isinstance(t, ast.Name) for t in binds[0].targets)
+            or const_int(binds[0].value) is None or any(isinstance(g, ast.Global) and name in g.names for g in ast.walk(tree))):
+        bad(node, "%s is not bound in netaddr/core.py once, at top level, to an int literal" % name)
+    cn = self.mangle(None, name)
+    self.consts.setdefault(cn, "(* %s: %s, line %d (imported by %s): the value of this constant *)\nDefinition %s : Z := %d.\n"
+                           % (fn, name, binds[0].lineno, self.fn, cn, const_int(binds[0].value)))
+    return ("int", cn)
+
+
+Translator.srcc_core_const = srcc_core_const
+
+
+def srcc_class_const(self, name, node):
+    """a module-level class used as an IPv6 dialect: the pair (word_fmt, compact) of its class attributes (text literal, bool literal),
+    looked up through the bases; emitted as the generated constant src_<prefix><name>.  None if `name` is no such class."""
+    if name not in self.mod.classes or self.mod.imports.get(name):
+        return None
+    binds = [n for st in self.mod.tree.body for n in ([st] if isinstance(st, (ast.FunctionDef, ast.ClassDef)) else ast.walk(st))
+             if (isinstance(n, (ast.FunctionDef, ast.ClassDef)) and n.name == name)
+             or (isinstance(n, ast.Name) and n.id == name and isinstance(n.ctx, ast.Store))]
+    if len(binds) != 1:
+        return None
+
+    def attr(cls, a, depth=0):
+        c = self.mod.classes.get(cls)
+        if c is None or depth > 8:
+            return None
+        ds = [st for st in c.body for n in ast.walk(st) if isinstance(n, ast.Name) and n.id == a and isinstance(n.ctx, ast.Store)]
+        if len(ds) > 1 or (ds and not (isinstance(ds[0], ast.Assign) and len(ds[0].targets) == 1 and isinstance(ds[0].value, ast.Constant))):
+            bad(node, "class attribute %s.%s is not bound once, to a literal" % (cls, a))
+        if ds:
+            return ds[0].value.value
+        for b in c.bases:
+            r = attr(dotted(b), a, depth + 1)
+            if r is not None:
+                return r
+        return None
+    fmt, compact = attr(name, "word_fmt"), attr(name, "compact")
+    if not isinstance(fmt, str) or not isinstance(compact, bool):
+        return None
+    if any(isinstance(n, ast.Attribute) and n.attr in ("word_fmt", "compact") and not isinstance(n.ctx, ast.Load) for n in ast.walk(self.mod.tree)):
+        bad(node, "a dialect attribute is assigned somewhere in the module")
+    cn = self.mangle(None, name)
+    self.consts.setdefault(cn, "(* %s: class %s, line %d: (word_fmt, compact) of that dialect class *)\nDefinition %s : string * bool := (%s, %s).\n"
+                           % (self.fn, name, binds[0].lineno, cn, srcc_strlit(fmt, node), "true" if compact else "false"))
+    return ("cls6", cn)
+
+
+Translator.srcc_class_const = srcc_class_const
 
 
 def srcc_normalize(f):
@@ -2504,7 +2580,22 @@ def srcc_rhs(self, node, env):
     if isinstance(node, ast.Name) and node.id not in env and node.id not in self.attrs and not node.id.startswith("self"):
         if node.id in SRCC_TABLE_TERM and node.id in UNIT_TABLES.get(self.tr.out, {}) and self.mod.toplevel(node.id):
             return (parse_type(UNIT_TABLES[self.tr.out][node.id]), SRCC_TABLE_TERM[node.id])
-        return self.tr.srcc_module_const(node.id, node)
+        return self.tr.srcc_module_const(node.id, node) or self.tr.srcc_core_const(node.id, node) or self.tr.srcc_class_const(node.id, node)
+    if isinstance(node, ast.Attribute) and isinstance(node.value, ast.Name) and env.get(node.value.id, ("",))[0] == "cls6" and node.attr in (
+            "word_fmt", "compact"):
+        t = env[node.value.id][1]                           # an IPv6 dialect class: the pair (word_fmt, compact)
+        return ("str", "(fst %s)" % t) if node.attr == "word_fmt" else ("bool", "(snd %s)" % t)
+    if isinstance(node, ast.BinOp) and isinstance(node.op, ast.Mod) and not isinstance(node.left, ast.Constant):
+        snap, pre0 = self.snapshot(), list(self.pre)
+        try:
+            ta, a = self.ex(node.left, env)
+        except Untranslatable:
+            ta = None
+        if ta == "str":                                     # <format held in a variable> % <int>: py_format1 reads the format text
+            return ("out", "str", "(py_format1 %s %s)" % (a, self.int_(node.right, env)))
+        self.restore(snap)
+        self.pre = pre0
+        return None
     if isinstance(node, ast.Constant) and isinstance(node.value, str) and node.value == "":
         return ("str", "\"\"%string")
     if isinstance(node, ast.List) and not node.elts:
@@ -2692,8 +2783,48 @@ def srcc_callfn(self, node, name, env):
         unify(node, ty, pty, "argument of %s" % d.cname)
     if d.optional or d.mutating:
         bad(node, "use of %s, which may return None or assigns state" % d.cname)
-    term = "(%s)" % " ".join([d.cname] + [x for _, x in args])
+    if d.__dict__.get("srcc_be"):
+        self.srcc_be = True
+    term = "(%s)" % " ".join([d.cname] + (["be"] if d.__dict__.get("srcc_be") else []) + [x for _, x in args])
     return ("out", d.kind, term) if d.outcome else (d.kind, term)
+
+
+def srcc_import_only(self, name, real, modules):
+    """is every binding of `name` in this module an import of `real` from one of `modules` (at any depth: the imports sit under
+    `if` / `try`), and is there at least one?"""
+    binds = [n for n in ast.walk(self.mod.tree) if (isinstance(n, (ast.FunctionDef, ast.ClassDef)) and n.name == name)
+             or (isinstance(n, ast.Name) and n.id == name and isinstance(n.ctx, ast.Store)) or (isinstance(n, ast.arg) and n.arg == name)]
+    imps = [(st.module, a) for st in ast.walk(self.mod.tree) if isinstance(st, ast.ImportFrom) for a in st.names if (a.asname or a.name) == name]
+    other = [a for st in ast.walk(self.mod.tree) if isinstance(st, ast.Import) for a in st.names if (a.asname or a.name.split(".")[0]) == name]
+    return bool(imps) and not binds and not other and all(m in modules and a.name == real for m, a in imps)
+
+
+def srcc_socket_call(self, node, env):
+    """_inet_aton(s) / _inet_pton(AF_INET | AF_INET6, s) / _inet_ntop(AF_INET6, p): the module binds these names at import time
+    to the functions of `socket` (platform) or of netaddr.fbsocket (fallback).  Which of the two is a parameter of the model:
+    the generated definition takes the back-end `be` and the call becomes the prelude symbol for that function and family
+    (SrcPreludeText: the named oracle of Model/IpText.v for Platform, the hand model of Model/FbSocket.v for Fallback)."""
+    f = node.func.id
+    real, fams = SRCC_SOCKET[f]
+    if not srcc_import_only(self, f, real, SRCC_SOCKET_MODULES) or node.keywords:
+        bad(node, "%s is not bound only by imports of %s from %s" % (f, real, " / ".join(SRCC_SOCKET_MODULES)))
+    args = list(node.args)
+    fam = None
+    if None not in fams:
+        if not (args and isinstance(args[0], ast.Name) and args[0].id in fams and args[0].id not in env
+                and srcc_import_only(self, args[0].id, args[0].id, SRCC_SOCKET_MODULES)):
+            bad(node, "%s with a first argument other than %s" % (f, " / ".join(fams)))
+        fam, args = args[0].id, args[1:]
+    sym, takes_be = fams[fam]
+    if len(args) != 1:
+        bad(node, "%s argument list" % f)
+    ty, t = self.ex(args[0], env)
+    want = "bytes" if real == "inet_ntop" else "str"
+    if ty != want:
+        bad(node, "%s of %s" % (f, show(ty)))
+    if takes_be:
+        self.srcc_be = True
+    return ("out", "str" if real == "inet_ntop" else "bytes", "(%s%s %s)" % (sym, " be" if takes_be else "", t))
 
 
 def srcc_call(self, node, env):
@@ -2713,6 +2844,12 @@ def srcc_call(self, node, env):
         if ty != "bytes":
             bad(node, "struct.unpack of %s" % show(ty))
         return ("out", ("list", Cell("int")), "(py_struct_unpack %s %s)" % (srcc_nats(sizes), t))
+    if isinstance(f, ast.Name) and f.id in SRCC_SOCKET and f.id not in env:
+        return srcc_socket_call(self, node, env)
+    if (isinstance(f, ast.Name) and f.id == "_is_str" and f.id not in env and len(node.args) == 1 and not node.keywords
+            and isinstance(node.args[0], ast.Name) and env.get(node.args[0].id, ("",))[0] in ("str", "bytes", "int")
+            and self.mod.imports.get("_is_str") == "netaddr.compat._is_str" and compat_lambda_isinstance("_is_str")):
+        return ("bool", "false" if env[node.args[0].id][0] == "int" else "true")      # compat: isinstance(x, (str, bytes))
     if isinstance(f, ast.Name) and f.id not in env and self.tr.owner_of(f.id) is not None:
         return srcc_callfn(self, node, f.id, env)
     if self.builtin_call(node, "list", env, 1):
@@ -2896,6 +3033,105 @@ def srcc_try_except(self, s, rest, env, k, after):
     return ("try", h.type.id, e2, pattern(cns), close(body), self.block(rest, env, k, after))
 
 
+def srcc_try_all(self, s, rest, env, k, after):
+    """try: body / except Exception: handler (or a bare `except:`), outside loops, no else / finally.  EVERY Python exception
+    leaving the body reaches the handler (py_except_all / py_except_value: all exception classes of the model; the modelling
+    devices OutOfFuel and Unsupported pass through).  Three shapes:
+      (A) the handler is `raise E(..)`, every path of the body returns or raises  -> py_except_all E (body), the function's result;
+      (B) the handler is `raise E(..)`, the body only assigns                       -> do <assigned> <- py_except_all E (body); rest;
+      (C) the handler is `return <literal>` or assigns literals to names bound before the try, the body neither returns nor
+          assigns a name that is read afterwards (other than those the handler assigns)
+                                                                                   -> py_except_value <handler's values> (body)."""
+    h = s.handlers[0]
+    if s.orelse or s.finalbody or env["@mut"] or env["@break"] is not None or any(
+            isinstance(n, (ast.Break, ast.Continue, ast.Try, ast.While, ast.For)) for st in s.body for n in ast.walk(st)):
+        bad(s, "try / except Exception with else / finally / loops / nested try, or inside a loop")
+    if h.name and any(isinstance(n, ast.Name) and n.id == h.name for st in h.body + rest + after for n in ast.walk(st)):
+        bad(s, "exception variable %s is used" % h.name)
+    has_ret = any(isinstance(n, ast.Return) for st in s.body for n in ast.walk(st))
+    if len(h.body) == 1 and isinstance(h.body[0], ast.Raise):
+        e2 = self.block(h.body, {**env, "@break": None}, None, [])[1]
+        if has_ret:                                                                                   # (A)
+            def falls(e):
+                bad(s, "try body that returns on some paths and falls off its end on others")
+            return ("xtry", "py_except_all %s" % e2, None, self.block(s.body, env, falls, []), None)
+        names, ends = assigned_names(s.body), []                                                      # (B)
+
+        def end(e):
+            ends.append(e)
+            return ("jret", e)
+        body = self.block(s.body, env, end, rest + after)
+        exported = [x for x in names if ends and all(x in e and is_value(e[x][0]) for e in ends) and x in loaded_names(rest + after)]
+        for x in names:
+            if x not in exported and x in loaded_names(rest + after):
+                bad(s, "%s is assigned in the try body on some paths only (or to no Coq value) and read afterwards" % x)
+        env = dict(env)
+        for x in names:
+            env.pop(x, None)
+        cns = []
+        for x in exported:
+            for e in ends[1:]:
+                unify(s, e[x][0], ends[0][x][0], "ends of the try body")
+            cn = self.coqname(s, x)
+            cns.append(cn)
+            env[x] = (ends[0][x][0], cn)
+        env["@taint"] = frozenset().union(env["@taint"], *[e["@taint"] for e in ends]) - (set(names) - set(exported))
+        return ("xtry", "py_except_all %s" % e2, pattern(cns), srcc_close(body, exported), self.block(rest, env, k, after))
+    if has_ret:
+        bad(s, "try body with return and a handler that does not raise")
+    lit = lambda v: isinstance(v, ast.Constant) and (isinstance(v.value, bool) or v.value is None or isinstance(v.value, (int, str)))
+    names = assigned_names(s.body)
+    if len(h.body) == 1 and isinstance(h.body[0], ast.Return) and h.body[0].value is not None and lit(h.body[0].value):   # (C), return
+        for x in names:
+            if x in loaded_names(rest + after):
+                bad(s, "%s is assigned in the try body and read afterwards" % x)
+        ty, t = self.ex(h.body[0].value, env)
+        self.lrets.append(ty)
+        body = self.block(s.body, env, lambda e: ("ret", "@loop", "(inr tt)", False), rest + after)
+        env = {key: val for key, val in env.items() if key not in names}
+        hn = self.fresh()
+        return ("xtry", "py_except_value (inl %s)" % t, hn, body, ("lmatch", hn, self.fresh(), "_", self.block(rest, env, k, after)))
+    if h.body and all(isinstance(a, ast.Assign) and len(a.targets) == 1 and isinstance(a.targets[0], ast.Name) and lit(a.value) for a in h.body):
+        hnames = [a.targets[0].id for a in h.body]                                                   # (C), assignments
+        if len(set(hnames)) != len(hnames) or any(x not in env or not is_value(env[x][0]) for x in hnames):
+            bad(s, "except handler assigns a name twice, or a name that is not bound (to a Coq value) before the try")
+        for x in names:
+            if x not in hnames and x in loaded_names(rest + after):
+                bad(s, "%s is assigned in the try body and read afterwards" % x)
+        hvals = []
+        for a in h.body:
+            ty, t = self.ex(a.value, env)
+            unify(a, ty, env[a.targets[0].id][0], "value assigned by the handler")
+            hvals.append(t)
+        ends = []
+
+        def end2(e):
+            ends.append(e)
+            return ("jret", e)
+        body = self.block(s.body, env, end2, rest + after)
+        for e in ends:
+            for x in hnames:
+                if x not in e:
+                    bad(s, "%s may be unbound at the end of the try body" % x)
+                unify(s, e[x][0], env[x][0], "value of %s at the end of the try body" % x)
+        env2 = {key: val for key, val in env.items() if key not in names}
+        cns = []
+        for x in hnames:
+            cn = self.coqname(s, x)
+            cns.append(cn)
+            env2[x] = (env[x][0], cn)
+        return ("xtry", "py_except_value %s" % tuple_term(hvals), pattern(cns), srcc_close(body, hnames), self.block(rest, env2, k, after))
+    bad(s, "except handler other than `raise E(..)`, `return <literal>` or assignments of literals")
+
+
+def srcc_close(ir, exported):
+    """the pending ends of a protected body become tuples of the exported variables"""
+    if ir[0] == "jret" and isinstance(ir[1], dict):
+        return ("jret", tuple_term([ir[1][x][1] for x in exported]))
+    return tuple(srcc_close(x, exported) if isinstance(x, tuple) and x and isinstance(x[0], str) else
+                 [(kd, ns, srcc_close(sub, exported)) for kd, ns, sub in x] if isinstance(x, list) else x for x in ir)
+
+
 def srcc_stmt(self, s, rest, env, k, after):
     go = lambda e: self.block(rest, e, k, after)
     if isinstance(s, ast.Raise) and isinstance(s.exc, ast.Name) and env.get(s.exc.id, ("",))[0] == "cls" and env[s.exc.id][1] in EXN and not s.cause:
@@ -2928,6 +3164,19 @@ def srcc_stmt(self, s, rest, env, k, after):
                 t, "; ".join(names), tuple_term(names)), go(env)))
         self.restore(snap)
         self.pre = pre0
+    if isinstance(s, ast.Try) and len(s.handlers) == 1 and (s.handlers[0].type is None or (
+            isinstance(s.handlers[0].type, ast.Name) and s.handlers[0].type.id == "Exception" and "Exception" not in env
+            and not self.mod.toplevel("Exception"))):
+        return srcc_try_all(self, s, rest, env, k, after)
+    if isinstance(s, ast.Expr) and isinstance(s.value, ast.Call) and isinstance(s.value.func, ast.Name) and s.value.func.id in SRCC_SOCKET:
+        r = self.rhs(s.value, env)                          # a socket call made for its exception only: the result is dropped
+        pre = self.take_pre()
+        return self.wrap(pre, ("bind", "_", r[2], go(env)))
+    if (isinstance(s, ast.If) and isinstance(s.test, ast.Call) and dotted(s.test.func) == "isinstance" and len(s.test.args) == 2
+            and not s.test.keywords and isinstance(s.test.args[0], ast.Name) and env.get(s.test.args[0].id, ("",))[0] == "str"
+            and dotted(s.test.args[1]) == "_str_type" and "_str_type" not in env
+            and self.mod.imports.get("_str_type") == "netaddr.compat._str_type" and compat_ok("_str_type")):
+        return self.block(s.body + rest, env, k, after)      # isinstance(<text>, _str_type): compat binds _str_type = str -- true
     if (isinstance(s, ast.Try) and len(s.handlers) == 1 and len(s.handlers[0].body) == 1 and isinstance(s.handlers[0].body[0], ast.Raise)
             and any(isinstance(n, (ast.For, ast.While)) for st in s.body for n in ast.walk(st))
             and not any(isinstance(n, (ast.Return, ast.Break, ast.Continue, ast.Try)) for st in s.body for n in ast.walk(st))):
@@ -2965,12 +3214,12 @@ def srcc_stmt(self, s, rest, env, k, after):
         t = s.test
         if (isinstance(t, ast.Compare) and len(t.ops) == 1 and isinstance(t.ops[0], ast.Is) and isinstance(t.left, ast.Name)
                 and isinstance(t.comparators[0], ast.Constant) and t.comparators[0].value is None
-                and env.get(t.left.id, ("",))[0] in ("optint", "optstr")):
-            # `if x is None: x = e` for a parameter declared optint / optstr: from here on x is an int / text
+                and env.get(t.left.id, ("",))[0] in ("optint", "optstr", "optcls6")):
+            # `if x is None: x = e` for a parameter declared optint / optstr / optcls6: from here on x is an int / text / dialect
             x, a = t.left.id, s.body[0] if len(s.body) == 1 else None
             if not (s.orelse == [] and isinstance(a, ast.Assign) and len(a.targets) == 1 and isinstance(a.targets[0], ast.Name) and a.targets[0].id == x):
                 bad(s, "`if %s is None:` followed by something other than `%s = <default>`" % (x, x))
-            old, base = env[x][1], {"optint": "int", "optstr": "str"}[env[x][0]]
+            old, base = env[x][1], {"optint": "int", "optstr": "str", "optcls6": "cls6"}[env[x][0]]
             dflt = srcc_pure(self, a.value, env, base)[1]
             cn, env = self.bind_local(a.targets[0], x, base, env, t)
             return ("let", cn, "(py_opt_default %s %s)" % (old, dflt), go(env))
@@ -3034,3 +3283,52 @@ def _srcc_fn_text(self):
 
 
 Fn.text = _srcc_fn_text
+
+
+_children0 = Fn.children
+
+
+def _srcc_children(ir):
+    return [x for x in (ir[3], ir[4]) if x is not None] if ir[0] == "xtry" else _children0(ir)
+
+
+Fn.children = staticmethod(_srcc_children)
+_effects0 = Fn.effects
+
+
+def _srcc_effects(self, ir):
+    return ir[0] == "xtry" or _effects0(self, ir)
+
+
+Fn.effects = _srcc_effects
+_render0 = Fn.render
+
+
+def _srcc_render(self, ir, ind, oc, optional=False):
+    if ir[0] == "xtry":             # ("xtry", <handler symbol and its arguments>, pattern | None, body, rest | None)
+        body = self.render(ir[3], ind + "   ", True, False)
+        if ir[4] is None:
+            return "%s\n%s  (%s)" % (ir[1], ind, body)
+        return "do %s <- %s\n%s  (%s);\n%s%s" % (ir[2], ir[1], ind, body, ind, self.render(ir[4], ind, oc, optional))
+    return _render0(self, ir, ind, oc, optional)
+
+
+Fn.render = _srcc_render
+_fn_text1 = Fn.text
+
+
+def _srcc_fn_text_be(self):
+    """a definition that calls one of the socket functions bound at import time (or another such definition) takes the back-end
+    as its first parameter `be`"""
+    t = _fn_text1(self)
+    if self.__dict__.get("srcc_be"):
+        if any(re.search(r"\bbe\b", L.text(self).split(":=", 1)[1]) for L in self.loops):
+            bad(self.f, "a loop of %s uses the back-end" % self.name)
+        head = "Definition %s " % self.cname
+        if t.count(head) != 1:
+            bad(self.f, "cannot place the back-end parameter of %s" % self.cname)
+        t = t.replace(head, head + "(be : py_backend) ")
+    return t
+
+
+Fn.text = _srcc_fn_text_be
